@@ -28,7 +28,7 @@ import (
 )
 
 const c12 = "C12"
-const c12rule = "(1) filter level: generated sequences of broadcast requests over a small slot space (instances 1..3 x rounds 0..1 x phases QUALITY/PREPARE/COMMIT x 2 senders x 2 signatures) interleaved with receives from other peers and restarts, a restart being a new filter re-armed by replaying the accepted log in file order or in a permuted order; " +
+const c12rule = "(1) filter level: generated sequences of broadcast requests over a small slot space (instances 1..3 x rounds {0,1,5,6,7,13} x phases QUALITY/PREPARE/COMMIT x 2 senders x 2 signatures) interleaved with receives from other peers and restarts, a restart being a new filter re-armed by replaying the accepted log in file order or in a permuted order; " +
 	"(2) node level: a real F3 node (real WAL directory, real certstore, own gossipsub over an in-process libp2p host, model EC, mock clock) driven through the public F3.Broadcast with possibly conflicting validly signed messages, rebroadcast requests, graceful restarts (Stop/New/Start on the same datastore and disk path) and abrupt restarts (node abandoned without Stop, new node on the same datastore and path, optionally with another EC head). A pubsub RawTracer on the node's own PubSub records every message the node hands to the network at the moment of publication. " +
 	"Invariants over the whole history: per (instance, sender, round, step) at most one distinct signature; no message for an instance older than one already broadcast; at publication time the message is decodable from the WAL directory by a fresh reader. Non-trivial = history with a conflicting request after a restart, or a request for an older instance, or a rebroadcast after a restart; distinct by digest of the trace"
 
@@ -62,7 +62,7 @@ func filterSequence(t *rapid.T) {
 		mk := func() *gpbft.GMessage {
 			return &gpbft.GMessage{
 				Sender:    gpbft.ActorID(rapid.IntRange(1, 2).Draw(t, "sender")),
-				Vote:      gpbft.Payload{Instance: uint64(rapid.IntRange(1, 3).Draw(t, "instance")), Round: uint64(rapid.IntRange(0, 1).Draw(t, "round")), Phase: gpbft.Phase(rapid.SampledFrom([]int{1, 3, 4}).Draw(t, "phase")), Value: &gpbft.ECChain{}},
+				Vote:      gpbft.Payload{Instance: uint64(rapid.IntRange(1, 3).Draw(t, "instance")), Round: uint64(rapid.SampledFrom([]int{0, 0, 1, 1, 5, 6, 7, 13}).Draw(t, "round")), Phase: gpbft.Phase(rapid.SampledFrom([]int{1, 3, 4}).Draw(t, "phase")), Value: &gpbft.ECChain{}},
 				Signature: []byte{byte(rapid.IntRange(0, 1).Draw(t, "sig"))},
 			}
 		}
@@ -325,8 +325,8 @@ func TestC12Node(t *testing.T) {
 				sender := uint64(rapid.IntRange(1, 2).Draw(t, "sender"))
 				p := gpbft.Payload{
 					Instance: uint64(rapid.IntRange(0, 2).Draw(t, "instance")),
-					Round:    uint64(rapid.IntRange(0, 1).Draw(t, "round")),
-					Phase:    gpbft.Phase(rapid.SampledFrom([]int{1, 3, 4}).Draw(t, "phase")),
+					Round:    uint64(rapid.SampledFrom([]int{0, 0, 1, 1, 6, 7, 13}).Draw(t, "round")),
+					Phase:    gpbft.Phase(rapid.SampledFrom([]int{1, 3, 4, 4}).Draw(t, "phase")),
 					Value:    values[rapid.IntRange(0, 1).Draw(t, "value")],
 					SupplementalData: gpbft.SupplementalData{PowerTable: vgen.DetCid("c12supp")},
 				}
@@ -359,7 +359,7 @@ func TestC12Node(t *testing.T) {
 				cur.f3.Broadcast(context.Background(), sb, sig, nil)
 				trace = append(trace, fmt.Sprintf("broadcast(i%d s%d r%d %s v%d)", p.Instance, sender, p.Round, p.Phase, map[bool]int{true: 0, false: 1}[p.Value == values[0]]))
 			case "rebroadcast":
-				in := gpbft.Instant{ID: uint64(rapid.IntRange(0, 2).Draw(t, "instance")), Round: uint64(rapid.IntRange(0, 1).Draw(t, "round")), Phase: gpbft.Phase(rapid.SampledFrom([]int{1, 3, 4}).Draw(t, "phase"))}
+				in := gpbft.Instant{ID: uint64(rapid.IntRange(0, 2).Draw(t, "instance")), Round: uint64(rapid.SampledFrom([]int{0, 0, 1, 6, 7, 13}).Draw(t, "round")), Phase: gpbft.Phase(rapid.SampledFrom([]int{1, 3, 4}).Draw(t, "phase"))}
 				_ = cur.f3.VerifRequestRebroadcast(in)
 				if restarts > 0 {
 					rebroadcastAfterRestart++
